@@ -103,6 +103,8 @@ def ann_kinds():
 c01.FILLS.setdefault('ops1', bytes((0xAF, 0x3C, 0x3D, 0x04, 0x05, 0x0C, 0x0D, 0xB7, 0xA7, 0x2F, 0x37, 0x3F, 0x00, 0xD9, 0x08, 0xC9)))
 
 # DEFB 1 ; LD A,5 ; RET ; NOP ; NOP ; LD A,7 ; INC A ; RET ; XOR A ; NOP x4 ; RET
+# four LD (IX/IY+d),n instructions (two numeric operands each, all non-zero): family S4, two-letter base prefixes
+c01.FILLS.setdefault('ixn', bytes((0xDD, 0x36, 0x05, 0xFD, 0xFD, 0x36, 0xFB, 0x03, 0xDD, 0x36, 0x7F, 0x80, 0xFD, 0x36, 0x80, 0x7F)))
 c01.FILLS.setdefault('mixops', bytes((0x01, 0x3E, 0x05, 0xC9, 0x00, 0x00, 0x3E, 0x07, 0x3C, 0xC9, 0xAF, 0x00, 0x00, 0x00, 0x00, 0xC9)))
 
 BASE_LAYOUTS = (
@@ -200,6 +202,10 @@ def round_trip(fill, ctl0, s2c=(), s2s=()):
     r1 = tools.run_tool('sna2skool', common + ['-c', ctl0f, binfile])
     if r1.rc:
         return ['sna2skool(ctl0) failed: {} {}'.format(r1.exc, r1.err[-150:])], False, 1
+    if fill == 'ixn' and 'Ignoring line' in r1.err:
+        # family S4: these control files are well-formed by construction (a documented base prefix of one or two letters
+        # on a length); a line that the control file parser rejects is a directive that is not retained
+        return ['sna2skool(ctl0) rejected a line of a well-formed control file: {}'.format(next(l for l in r1.err.splitlines() if 'Ignoring line' in l)[:200])], False, 1
     if 'WARNING' in r1.err:
         return [], True, 1
     sk1 = tools.write_file('c03_1.skool', r1.out, d)
@@ -275,6 +281,20 @@ def cases(tier):
                 # ... and with a title on that final 'i' entry (it then does produce output)
                 ctl_t = ctl.replace('\ni {}\n'.format(A + 16), '\ni {} Unused\n'.format(A + 16))
                 yield ('S3', fill, ctl_t, '{}:{}#{}/noend-titled'.format(btype, kname, ti), ('-k',) if needs_keep(ctl) else (), ('NOEND',))
+    # S4: base prefixes of one and two letters on instructions with two numeric operands (LD (IX+d),n), as the length of
+    # one sub-block and of two sub-blocks with different prefixes
+    letters = 'bcdhmn'
+    prefixes = list(letters) + [x + y for x in letters for y in letters]
+    for p1 in prefixes:
+        ctl = 'c {0} Routine\nC {0},{1}16 two operands\ni {2}\n'.format(A, p1, A + 16)
+        for s2c in S2C_OPTS:
+            yield ('S4', 'ixn', ctl, 'c:base-{}'.format(p1), s2c, ())
+        for s2s in S2S_OPTS[1:]:
+            yield ('S4', 'ixn', ctl, 'c:base-{}'.format(p1), (), s2s)
+        for p2 in ('dm', 'hm', 'mn', 'm', 'nd'):
+            if p2 != p1:
+                ctl2 = 'c {0} Routine\nC {0},{1}8 first\nC {2},{3}8 second\ni {4}\n'.format(A, p1, A + 8, p2, A + 16)
+                yield ('S4', 'ixn', ctl2, 'c:base-{}+{}'.format(p1, p2), (), ())
     pair_texts = (2, 7, 10) if tier == 'quick' else range(len(TEXTS))
     pair_layouts = BASE_LAYOUTS[:2] if tier == 'quick' else BASE_LAYOUTS
     for fill, btype in pair_layouts:
@@ -325,7 +345,7 @@ def run(tier, seed):
         rule='S1: every C01-B control-file layout not starting with an ignored block (3 fills) with default options, single-block layouts also under '
              '5 skool2ctl and 6 sna2skool option sets; S2: on 6 representative entries every (annotation kind x text) pair ({} kinds x 14 texts), '
              'also under the option sets for two of them, and every ordered pair of distinct kinds with {} texts. Each case = 4 tool executions '
-             '(sna2skool, skool2ctl -b, sna2skool, skool2ctl -b); oracle: skool2 == skool1 and ctl2 == ctl1. states = distinct layout/annotation '
+             '(sna2skool, skool2ctl -b, sna2skool, skool2ctl -b); oracle: skool2 == skool1 and ctl2 == ctl1. S4: four LD (IX/IY+d),n instructions under every base prefix of one or two letters (42) x 5 skool2ctl and 6 sna2skool option sets, and as two sub-blocks with different prefixes; there a control-file line rejected by the parser is a violation too. states = distinct layout/annotation '
              'shapes'.format(len(ann_kinds()), 3 if tier == 'quick' else 14),
         exhaustive=True,
         bound='<= 2 blocks / <= 1 sub-block structurally; <= 2 annotation kinds per entry',
